@@ -48,6 +48,25 @@ func scenario(role string, seed int) string {
 			}
 		}(g)
 	}
+	// two senders without pauses: while they run, some message is always between its Save and the
+	// end of its serialization, which is when a ResendRequest up to "the last number" meets it
+	for g := 4; g < 6; g++ {
+		wg.Add(1)
+		go func(g int) {
+			defer wg.Done()
+			time.Sleep(150 * time.Millisecond)
+			for i := 0; i < 250; i++ {
+				select {
+				case <-stop:
+					return
+				default:
+				}
+				m := fixgen.NewMarketDataRequestReject()
+				m.SetMDReqID("b" + strconv.Itoa(g) + "-" + strconv.Itoa(i))
+				_ = l.Sess.Send(m)
+			}
+		}(g)
+	}
 	// state queries and event registration
 	wg.Add(2)
 	go func() {
@@ -95,11 +114,25 @@ func scenario(role string, seed int) string {
 			for k := 0; k < 3; k++ {
 				_ = l.Send(l.PeerMsg("2", "7="+strconv.Itoa(from)+"\x0116=0\x01"))
 			}
+			// and a request for exactly one message, the newest one seen
+			last := snap[len(snap)-1].Seq
+			_ = l.Send(l.PeerMsg("2", "7="+strconv.Itoa(last)+"\x0116="+strconv.Itoa(last)+"\x01"))
+			if i >= 1 && i <= 3 { // while the pause-less senders run: open-ended requests in quick succession
+				for k := 0; k < 12; k++ {
+					time.Sleep(2 * time.Millisecond)
+					if sn := l.Snapshot(); len(sn) > 0 {
+						_ = l.Send(l.PeerMsg("2", "7="+strconv.Itoa(sn[len(sn)-1].Seq)+"\x0116=0\x01"))
+					}
+				}
+			}
 		}
 		time.Sleep(100 * time.Millisecond)
 	}
 	// silence: the inbound timer (N + max(1,N/20) = 2 s) expires, a TestRequest must come
 	if _, ok := l.WaitType("1", 3500*time.Millisecond); ok {
+		// the answer comes late enough for the heartbeat timer to expire while the session probes
+		// (it is judged in the not-logged-on state), and early enough not to be disconnected
+		time.Sleep(1150 * time.Millisecond)
 		_ = l.Send(l.PeerMsg("0", "112=1\x01"))
 	}
 	// logout / logon again while senders are still active
